@@ -213,7 +213,7 @@ def check_narrow(ctx, k, abits):
 
 VARIANTS = [("k_cav_vol_int", "val"), ("k_cav_vol_long", "val"), ("k_cav_ptr_int", "ptr"), ("k_cav_volptr_long", "ptr"), ("k_cav_struct", "struct"),
             ("k_cav_arr", "arr"), ("k_cavr", "range"), ("k_cavs_unique", "string_u"), ("k_cavs_string", "string_s"), ("k_deny_copy", "deny"),
-            ("k_cavs_vol_unique", "string_u"), ("k_cavs_vol_string", "string_s"), ("k_cav_arr2d", "arr"), ("k_cavba_vol", "bufaddr"), ("k_cavr_vol", "range"), ("k_cavr_char", "range"), ("k_cav_volptr_struct", "struct")]
+            ("k_cavs_vol_unique", "string_u"), ("k_cavs_cunique", "string_u"), ("k_cavs_vol_cunique", "string_u"), ("k_cavs_vol_string", "string_s"), ("k_cav_arr2d", "arr"), ("k_cavba_vol", "bufaddr"), ("k_cavr_vol", "range"), ("k_cavr_char", "range"), ("k_cav_volptr_struct", "struct")]
 
 
 def check_seq(ctx, k, kind):
